@@ -8,14 +8,23 @@
      Collect(names)   collect() produced an SNL PDU with these SDREQ
      Deliver(ans)     an SNL PDU with these <<name, address>> answers is dispatched
      LinkEnd          the service discovery component is shut down (what terminate() does)
-     Return(t, ret)   resolve() came back: address, -2 = None, -3 = KeyError, -4 = another exception
+     Return(t, ret)   resolve() came back: address, -2 = None, -3 = KeyError, -5 = IndexError, -4 = another exception
+     End              the schedule is over (last event of every trace; no spec action)
+
+   Every event carries what the REAL ServiceDiscovery object showed when the event was logged, i.e. after the critical
+   section of the event before it: `free` = len(tids), `busy` = the ids of 0..255 that are not in tids, and `q` = the
+   ids of the requests in the sdreq queue, in order.  The step
+   for event l is judged against the observation of event l+1 (PoolConserved): after EVERY real step the real pool is
+   the spec's pool (nothing missing, nothing twice) and the ids that are out are exactly those of the requests that
+   are queued or on the wire.  The id a Call draws is read from the same observation.  Deliver names the transaction
+   ids of the answers.
 
    Wake-ups that find somebody else's answer and go back to sleep are internal: a Return is the thread's Wake (with
    the look at its own name) followed by the return.  "Deadlock" (a thread never came back) has no spec action.   *)
 EXTENDS LlcpResolve, Json, IOUtils, TLCExt, SequencesExt
 
 VARIABLES tid, l
-tvars == <<th, reqs, sent, out, snl, cache, up, tid, l>>
+tvars == <<th, reqs, sent, out, pool, snl, cache, up, tid, l>>
 
 Traces == ndJsonDeserialize(IOEnv.TRACE_FILE)
 T == Traces[tid].ev
@@ -29,19 +38,31 @@ TraceLen == [n \in TraceNames |-> CASE n \in {"L70a", "L70b"} -> 70 [] n = "S16"
 TracePeer == [n \in TraceNames |-> CASE n = "n1" -> 16 [] n = "n2" -> 17 [] n = "wk" -> 4 [] n = "L70a" -> 18 [] n = "L70b" -> 19
                                       [] n = "S16" -> 20 [] n = "L60a" -> 21 [] n = "L120" -> 22 [] OTHER -> 0]
 
+TraceTids == 0..255
+\* the long sessions (more lookups of distinct uncached names than there are transaction ids): u1 .. u320, 15 octets each
+LongNames == TraceNames \cup {"u" \o ToString(i) : i \in 1..320}
+LongLen == [n \in LongNames |-> IF n \in TraceNames THEN TraceLen[n] ELSE 15]
+LongPeer == [n \in LongNames |-> IF n \in TraceNames THEN TracePeer[n]
+                                  ELSE CASE n = "u5" -> 23 [] n = "u130" -> 24 [] n = "u257" -> 25 [] n = "u300" -> 26 [] OTHER -> 0]
+
 TInit == tid \in 1..Len(Traces) /\ l = 1 /\ Init
 
 Ev == T[l]
 IsEv(a) == l <= Len(T) /\ Ev.a = a /\ l' = l + 1 /\ UNCHANGED tid
+\* the observation of the real object after this step (every trace ends with "End", which is never a step's successor)
+Nxt == T[l + 1]
+ObsBusy(e) == {e.busy[i] : i \in DOMAIN e.busy}
 
 NamesOf(A) == LET s == SetToSeq(A) IN [i \in DOMAIN s |-> s[i].n]
-SameBag(x, y) == Len(x) = Len(y) /\ \A n \in TraceNames :
+SameBag(x, y) == Len(x) = Len(y) /\ \A n \in Names :
                     Cardinality({i \in DOMAIN x : x[i] = n}) = Cardinality({i \in DOMAIN y : y[i] = n})
 
-GCall    == IsEv("Call") /\ th[Ev.t].pc = "idle" /\ Set(CallR(State, Ev.t, Ev.n))
+GCall    == IsEv("Call") /\ th[Ev.t].pc = "idle" /\ l < Len(T)
+            /\ \E x \in Draws(State, Ev.n) : (x # NoTid => x \in ObsBusy(Nxt)) /\ Set(CallR(State, Ev.t, Ev.n, x))
 GCollect == IsEv("Collect") /\ Collect /\ snl' = Ev.names
 GDeliver == IsEv("Deliver") /\ \E A \in SUBSET out :
                 /\ SameBag(NamesOf(A), [i \in DOMAIN Ev.ans |-> Ev.ans[i][1]])
+                /\ {a.tid : a \in A} = {Ev.ans[i][3] : i \in DOMAIN Ev.ans}
                 /\ \A i \in DOMAIN Ev.ans : Ev.ans[i][2] = PeerSnl[Ev.ans[i][1]]          \* the peer answers from its table
                 /\ Deliver(A)
 GLinkEnd == IsEv("LinkEnd") /\ LinkEnd
@@ -53,13 +74,21 @@ GReturn  == /\ IsEv("Return")
                /\ s1.th[Ev.t].ret = Ev.ret
                /\ ReturnOkP(s1.th[Ev.t], s1.up)
                /\ Set(ReturnR(s1, Ev.t))
-Guarded == GCall \/ GCollect \/ GDeliver \/ GLinkEnd \/ GReturn
+GEnd     == IsEv("End") /\ l = Len(T) /\ UNCHANGED vars
+Guarded == GCall \/ GCollect \/ GDeliver \/ GLinkEnd \/ GReturn \/ GEnd
 
-PostState == [th |-> th', reqs |-> reqs', sent |-> sent', out |-> out', snl |-> snl', cache |-> cache', up |-> up']
-InvNames == <<"NoLostWakeup", "RequestOut", "Recorded", "SnlFits">>
+PostState == [th |-> th', reqs |-> reqs', sent |-> sent', out |-> out', pool |-> pool', snl |-> snl', cache |-> cache', up |-> up']
+\* the real pool after the step: len(tids) and the ids missing from tids are the spec's - with len(tids) = |Tids| - |busy|
+\* no id is in the real list twice
+ObsIs(e, p, q) == ObsBusy(e) = Tids \ p /\ e.free = Cardinality(p) /\ e.q = [i \in DOMAIN q |-> q[i].tid]
+RealPoolP(p, q) == /\ l < Len(T) => ObsIs(Nxt, p, q)
+                   /\ l = 1 => ObsIs(Ev, pool, reqs)             \* the fresh object: all ids free
+InvNames == <<"NoLostWakeup", "RequestOut", "Recorded", "SnlFits", "PoolConserved", "NeverStarves">>
 InvP(n) == CASE n = "NoLostWakeup" -> NoLostWakeupP(PostState)
              [] n = "RequestOut"   -> RequestOutP(PostState)
              [] n = "Recorded"     -> RecordedP(PostState)
+             [] n = "PoolConserved" -> PoolConservedP(PostState) /\ RealPoolP(pool', reqs')
+             [] n = "NeverStarves" -> NeverStarvesP(PostState)
              [] n = "SnlFits"      -> SnlFitsP([PostState EXCEPT !.snl = IF Ev.a = "Collect" THEN Ev.names ELSE @])
 AllInv == \A i \in DOMAIN InvNames : InvP(InvNames[i])
 Real == Guarded /\ AllInv
@@ -68,6 +97,7 @@ Expect == IF Ev.a = "Return" /\ th[Ev.t].pc \in {"woken", "ret"}
           THEN LET s1 == IF th[Ev.t].pc = "woken" THEN WakeR(State, Ev.t, TRUE) ELSE State
                IN <<s1.th[Ev.t].pc, s1.th[Ev.t].n, IF s1.th[Ev.t].pc = "ret" THEN s1.th[Ev.t].ret ELSE PeerSnl[th[Ev.t].n]>>
           ELSE IF Ev.a = "Collect" /\ reqs # <<>> THEN <<"expected-SDREQ", CollectR(State).snl, "queue", [i \in DOMAIN reqs |-> reqs[i].n]>>
+          ELSE IF l < Len(T) THEN <<"ids-out", Nxt.busy, "free", Nxt.free>>
           ELSE <<"-">>
 Why == IF ~ENABLED Guarded THEN <<"guard", Expect>>
        ELSE <<"inv", SelectSeq(InvNames, LAMBDA n : ~ENABLED (Guarded /\ InvP(n)))>>
@@ -77,7 +107,7 @@ Stuck ==
     /\ ~ENABLED Real
     /\ PrintT(<<"STUCK", Traces[tid].id, l, Ev.a, Why>>)
     /\ l' = Len(T) + 2
-    /\ UNCHANGED <<th, reqs, sent, out, snl, cache, up, tid>>
+    /\ UNCHANGED <<th, reqs, sent, out, pool, snl, cache, up, tid>>
 
 TNext == Real \/ Stuck
 TSpec == TInit /\ [][TNext]_tvars
